@@ -33,6 +33,7 @@ Proof.
       * eapply step_CWalk_end_simple; eauto 6.
       * eapply step_CWalk_end_simple; eauto 7.
       * eapply step_CWalk_end_simple; eauto 7.
+      * eapply step_CWalk_end_state; eauto.
   - (* WWalk *)
     destruct (get_hook g cur) as [hk|] eqn:Hx.
     2: { unfold step in Hs. rewrite Hth, Hpc, Hx in Hs. discriminate. }
@@ -145,8 +146,8 @@ Proof.
   - destruct (get_client g c) as [cl|]; [|discriminate]. destruct (c_mu cl); [discriminate|].
     destruct (c_released cl); inversion Hs; subst; exact Hm.
   - destruct (get_hook g p) as [hk|]; [|discriminate]. destruct (h_mu hk); [discriminate|].
-    repeat match type of Hs with context[match ?x with _ => _ end] => destruct x end;
-    inversion Hs; subst; cbn; auto.
+    destruct (h_resolved hk); inversion Hs; subst. exact Hm.
+    apply fmark_body_misuse. destruct (resolves_to_cycle g rh p); auto.
   - destruct (get_hook g cur) as [hk|]; [|discriminate]. destruct (h_mu hk); [discriminate|].
     repeat match type of Hs with context[match ?x with _ => _ end] => destruct x end;
     inversion Hs; subst; cbn; auto.
@@ -299,7 +300,7 @@ Qed.
 
 (* a thread about to lock a hook mutex is enabled *)
 Lemma en_hook_pc : forall t th, nth_error (threads g) t = Some th ->
-  (match t_pc th with CWalk _ _ _ | WWalk _ _ _ | CallFin _ | FMark _ _ _ | InCall _ => True | _ => False end) ->
+  (match t_pc th with CWalk _ _ _ | WWalk _ _ _ | CallFin _ _ | FMark _ _ _ | InCall _ => True | _ => False end) ->
   exists g', step true g t = Some g'.
 Proof.
   intros t th Hth Hk. pose proof (W t th Hth) as Wt. unfold step. rewrite Hth.
@@ -321,11 +322,6 @@ Proof.
     unfold close_done. cbn [h_done hk_calls]. rewrite Hd. eauto.
   - destruct (hook_of_lt g p Wt) as (hk & Hx). rewrite Hx, (hook_free _ _ Hx).
     destruct (h_resolved hk) eqn:Hr; eauto.
-    destruct (inv_hook g (invH g I) p hk Hx) as [O1 O2 O3 O4 O5 O6 O7].
-    destruct (h_refs hk =? 0) eqn:En; eauto.
-    assert (Hd : h_done hk = false) by (rewrite O4; rewrite ?En; reflexivity).
-    cbn [h_calls hk_refs hk_resolve]. unfold close_done. cbn [h_done hk_refs hk_resolve]. rewrite Hd.
-    destruct (h_calls hk =? 0); destruct rh as [r|]; eauto; destruct (Nat.eqb r p); eauto.
 Qed.
 
 (* a thread about to lock a client mutex is enabled, or the holder is *)
